@@ -310,6 +310,65 @@ def border_history(sub: Ctx, seed: int, h: int, pinned_mode: bool = False):
     return lines
 
 
+def sibling_border_history(sub: Ctx, seed: int, h: int):
+    """strokes interleaved on two or three tables of ONE document (a second table on the first sheet, a table on a second
+    sheet), on the same sides and the same row / column numbers: every table reports exactly its own strokes, on the open
+    document and after save + reopen (oracle only: the model's histories are one table each)."""
+    from numbers_parser import RGB, Border, Document
+    rng = sub.rng
+    shapes = [(rng.randint(4, 7), rng.randint(4, 6)) for _ in range(rng.choice([2, 2, 3]))]
+    doc = Document(num_rows=shapes[0][0], num_cols=shapes[0][1], num_header_rows=0, num_header_cols=0)
+    doc.sheets[0].add_table("Second", num_rows=shapes[1][0], num_cols=shapes[1][1], num_header_rows=0, num_header_cols=0)
+    if len(shapes) == 3:
+        doc.add_sheet("Other", "Third", num_rows=shapes[2][0], num_cols=shapes[2][1])
+        doc.sheets[1].tables[0].num_header_rows = 0
+        doc.sheets[1].tables[0].num_header_cols = 0
+
+    def tables(d):
+        return [d.sheets[0].tables[0], d.sheets[0].tables[1]] + ([d.sheets[1].tables[0]] if len(shapes) == 3 else [])
+    specs = [(rng.choice(WIDTHS), (rng.randrange(256), rng.randrange(256), rng.randrange(256)), rng.choice(STYLES))
+             for _ in range(rng.randint(2, 5))]
+    pal = Palette()
+    edge_maps = [dict() for _ in shapes]
+    log = []
+    where = {"seed": seed, "history": h, "tables": [list(x) for x in shapes]}
+    for seg in range(rng.choice([1, 2])):
+        tbs = tables(doc)
+        # the same (side, row, column, length) is drawn on several tables with different strokes: same side, same number
+        for _ in range(rng.randint(2, 6)):
+            side = rng.choice(SIDES)
+            r, c = rng.randrange(min(x[0] for x in shapes)), rng.randrange(min(x[1] for x in shapes))
+            order = list(range(len(shapes)))
+            rng.shuffle(order)
+            for ti in order[: rng.randint(1, len(shapes))]:
+                k = rng.randrange(len(specs))
+                w, col, sty = specs[k]
+                b = Border(w, RGB(*col), sty)
+                pid = pal.of(b.width, b.color, b.style)
+                with warnings.catch_warnings(record=True) as caught:
+                    warnings.simplefilter("always")
+                    tbs[ti].set_cell_border(r, c, side, b, 1)
+                log.append([ti, side, r, c, [w, list(col), sty]])
+                if not any(issubclass(x.category, RuntimeWarning) for x in caught):
+                    for e in stroke_edges(side, r, c, 1):
+                        edge_maps[ti][e] = pid
+        inp = {**where, "segment": seg, "strokes": list(log)}
+        opens = [grid_view(t, pal) for t in tbs]
+        doc = cycle(doc)
+        saved = [grid_view(t, pal) for t in tables(doc)]
+        sub.count("strokes interleaved on several tables of one document: every table's open / reloaded view vs its own edge map", 1)
+        sub.mark(("sibling-borders", seed, h, seg))
+        for ti, (nr, nc) in enumerate(shapes):
+            want = expected_grid(nr, nc, [], edge_maps[ti])
+            for view, sig, label in ((opens[ti], "border-open-not-most-recent", "open document"),
+                                     (saved[ti], "border-reloaded-not-most-recent", "after save and reopen")):
+                d = diff_cells(view, want)
+                if d:
+                    sub.violation(sig, f"{label}, table #{ti} of {len(shapes)} tables drawn on in turn: cell border differs from "
+                                  f"the strokes drawn on THAT table; [row, col, reported(t,r,b,l), expected]: {describe(d, pal)}", inp)
+    return []
+
+
 def describe(d, pal):
     return [[r, c, [pal.describe(x) for x in a], [pal.describe(x) for x in b]] for r, c, a, b in d]
 
@@ -1510,7 +1569,8 @@ def run(ctx: Ctx):
     twins = [f for f in TWIN_QUICK if f in fixtures] if ctx.quick else fixtures
     n_tie = 100 if ctx.quick else 1500
     reads = [f for f in READ_QUICK if f in fixtures] if ctx.quick else fixtures
-    tasks = ([("b", ctx.seed, h) for h in range(n_hist)] + [("s", ctx.seed, h) for h in range(n_sty)]
+    tasks = ([("b", ctx.seed, h) for h in range(n_hist)] + [("m", ctx.seed, h) for h in range(n_hist // 8)]
+             + [("s", ctx.seed, h) for h in range(n_sty)]
              + [("t", f) for f in twins] + [("x", n) for n in SCENARIOS]
              + [("g", ctx.seed, h) for h in range(n_tie)] + [("r", f) for f in reads])
     breq, bout, sreq, sout, greq, gout = [], [], [], [], [], []
@@ -1532,7 +1592,21 @@ def run(ctx: Ctx):
     ctx.correspond("Style.__setattr__ flags: constructed and read styles x every attribute name", req, out, exhaustive=True, keep=1)
 
 
+def _sibling_border_worker(task):
+    warnings.simplefilter("ignore")
+    seed, h = task
+    sub = Ctx(PID, "quick", seed * 3_000_017 + h)
+    try:
+        sibling_border_history(sub, seed, h)
+    except Exception as e:  # noqa: BLE001
+        import traceback
+        sub.violation("sibling-border-history-raises", f"{exc_name(e)}: {e}; {traceback.format_exc()[-400:]}", {"seed": seed, "history": h})
+    return common.sub_result(sub, [])
+
+
 def _dispatch(task):
+    if task[0] == "m":
+        return _sibling_border_worker(task[1:])
     if task[0] == "b":
         return _border_worker(task[1:])
     if task[0] == "s":
